@@ -132,4 +132,35 @@ func c12Record(tier string, seed int64, emit func(interface{})) {
 			call("big", s[k:]+s[:k])
 		}
 	}
+	// long ties: rings well beyond 2^16 letters in which two candidate rotations agree for more than 2^16 letters
+	// (a run with a late exception, a power of a short word with ONE letter changed), cut at the origin, at the
+	// middle, next to the exception and at random
+	for i := 0; i < nBig/2; i++ {
+		g++
+		n := 70000 + rng.Intn(maxBig-70000+1)
+		if tier == "thorough" && i%2 == 0 {
+			n = 140000 + rng.Intn(200000)
+		}
+		var b []byte
+		pos := 0
+		switch i % 3 {
+		case 0:
+			b = []byte(strings.Repeat("a", n))
+			pos = n - 2
+			b[pos] = 'b'
+		case 1:
+			u := []string{"abcd", "ab", "aab", "dcba", "abcabd"}[rng.Intn(5)]
+			b = []byte(strings.Repeat(u, n/len(u)+1)[:n/len(u)*len(u)])
+			pos = rng.Intn(len(b))
+			b[pos] = "abcd"[(strings.IndexByte("abcd", b[pos])+1+rng.Intn(3))%4]
+		default:
+			b = []byte(fib(n, "a", "b"))
+			pos = rng.Intn(len(b))
+			b[pos] = 'a' + 'b' - b[pos]
+		}
+		s := string(b)
+		for _, k := range []int{0, len(s) / 2, (pos + 1) % len(s), (pos + len(s) - 70000) % len(s), rng.Intn(len(s))} {
+			call("big", s[k:]+s[:k])
+		}
+	}
 }
